@@ -48,9 +48,17 @@ CallClauses(ev) ==
 \* clauses index tables by position; if some logged table is not even well-shaped they are
 \* not evaluated (TLC would raise an error, not answer FALSE) and the event fails C05 instead
 AllShaped(h) == \A s \in DOMAIN h : Shaped(h[s])
+\* operations documented to return a new table: the frame rule applies whatever the domain of
+\* the operation's own property is
+NewTableCalls == {"sort", "sort_order", "transpose", "copy", "head", "subsample", "partition", "collapse", "merge",
+                  "concat", "align_to"}
 Dispatch(ev) ==
-  IF AllShaped(ev.pre) /\ AllShaped(ev.post)
+  \* a step whose receiver was never produced (an earlier call of the trace failed, and was judged
+  \* there) cannot be executed; it is recorded and skipped
+  IF ev.out = "error:missing-receiver" THEN [TRACE_continuity |-> TRUE]
+  ELSE IF AllShaped(ev.pre) /\ AllShaped(ev.post)
   THEN CallClauses(ev) @@ [C05_coherent_after_every_call |-> AllCoherent(ev.post)]
+       @@ (IF ev.call \in NewTableCalls THEN [C07_inputs_unchanged |-> FrameRule(ev, {ev.res})] ELSE [TRACE_continuity |-> TRUE])
   ELSE [C05_coherent_after_every_call |-> FALSE]
 
 FailedClauses(ev) == LET c == Dispatch(ev) IN {k \in DOMAIN c : ~c[k]}
